@@ -3,7 +3,8 @@
    the implementation: the model functions are total by construction and suite O checks that the
    implementation returns a value that equals the model's on every generated model. *)
 From Coq Require Import List Bool String ZArith Permutation.
-From FM Require Import Base.PyFloat Model.FM Model.Queries Model.Ops Proofs.C16Facts.
+From FM Require Import Base.Result Base.PyFloat Model.FM Model.Queries Model.Ops Model.PyRt Model.Loc Gen.Src_ops
+     Gen.Src_opobj Proofs.C16Facts Proofs.SrcTieC16.
 Import ListNotations.
 Local Open Scope list_scope.
 
@@ -58,6 +59,66 @@ Theorem C16_variation_points : forall m f vs,
    In (f, vs) (variation_points m) <-> (In f (subfeatures (root m)) /\ vs = variants f /\ vs <> []).
 Proof. exact variation_points_spec. Qed.
 Print Assumptions C16_variation_points.
+
+(* ---- the same about the TRANSLATED SOURCE of the operations (Gen/Src_ops.v, Gen/Src_opobj.v, regenerated from
+   operations/*.py on every run; DESIGN §10) ---- *)
+Theorem C16_source_count_leafs : forall m fuel, (fuel_tree (root m) <= fuel)%nat ->
+  py_count_leaf_features fuel m = Ok (Z.of_nat (List.length (spec_leaves (root m)))).
+Proof. exact source_count_leafs. Qed.
+Print Assumptions C16_source_count_leafs.
+
+Theorem C16_source_leaves : forall m fuel, (fuel_tree (root m) <= fuel)%nat ->
+  exists l, py_get_leaf_features fuel m = Ok l /\ Permutation (map fst l) (spec_leaves (root m)).
+Proof. exact source_leaves. Qed.
+Print Assumptions C16_source_leaves.
+
+Theorem C16_source_max_depth : forall m fuel, (fuel_tree (root m) <= fuel)%nat -> rels_nonempty (root m) ->
+  py_max_depth_tree fuel m = Ok (Z.of_nat (depth (root m))).
+Proof. exact source_max_depth. Qed.
+Print Assumptions C16_source_max_depth.
+
+Theorem C16_source_ancestors : forall f anc fuel, (List.length anc < fuel)%nat ->
+  exists l, py_get_feature_ancestors fuel (f, anc) = Ok l /\ map fst l = anc.
+Proof. exact source_ancestors. Qed.
+Print Assumptions C16_source_ancestors.
+
+Theorem C16_source_branching_factor : forall m fuel, (fuel_tree (root m) <= fuel)%nat ->
+  py_average_branching_factor fuel m 2%Z = Ok (average_branching_factor m).
+Proof. exact source_abf. Qed.
+Print Assumptions C16_source_branching_factor.
+
+Theorem C16_source_variation_points : forall m fuel f vs, (fuel_tree (root m) <= fuel)%nat -> NoDup (names (root m)) ->
+  exists l, py_variation_points fuel m = Ok l /\
+    (In (f, vs) (map (fun kv => (fst (fst kv), map fst (snd kv))) l)
+     <-> (In f (subfeatures (root m)) /\ vs = variants f /\ vs <> [])).
+Proof. exact source_variation_points. Qed.
+Print Assumptions C16_source_variation_points.
+
+(* "returns a value, without raising, on every well-formed model including the root alone" *)
+Theorem C16_source_total : forall m fuel, (fuel_tree (root m) <= fuel)%nat -> rels_nonempty (root m) ->
+  (exists v, py_count_leaf_features fuel m = Ok v) /\ (exists v, py_get_leaf_features fuel m = Ok v) /\
+  (exists v, py_max_depth_tree fuel m = Ok v) /\ (exists v, py_average_branching_factor fuel m 2%Z = Ok v).
+Proof. exact source_tree_ops_total. Qed.
+Print Assumptions C16_source_total.
+
+(* the operation objects report the function's value whatever they executed before *)
+Theorem C16_source_objects : forall fuel m,
+  (forall s, rmap py_FMCountLeafs_get_result (py_FMCountLeafs_execute fuel s m) = py_count_leaf_features fuel m) /\
+  (forall s, rmap py_FMLeafFeatures_get_result (py_FMLeafFeatures_execute fuel s m) = py_get_leaf_features fuel m) /\
+  (forall s, rmap py_FMMaxDepthTree_get_result (py_FMMaxDepthTree_execute fuel s m) = py_max_depth_tree fuel m) /\
+  (forall s, rmap py_FMAverageBranchingFactor_get_result (py_FMAverageBranchingFactor_execute fuel s m)
+             = py_average_branching_factor fuel m 2%Z) /\
+  (forall s, rmap py_FMVariationPoints_get_result (py_FMVariationPoints_execute fuel s m) = py_variation_points fuel m) /\
+  (forall s x, rmap py_FMFeatureAncestors_get_result
+                 (py_FMFeatureAncestors_execute fuel (py_FMFeatureAncestors_set_feature s x) m)
+               = py_get_feature_ancestors fuel x).
+Proof.
+  intros fuel m.
+  exact (conj (fun s => src_obj_count_leafs fuel s m) (conj (fun s => src_obj_leaf_features fuel s m)
+        (conj (fun s => src_obj_max_depth fuel s m) (conj (fun s => src_obj_abf fuel s m)
+        (conj (fun s => src_obj_variation_points fuel s m) (fun s x => src_obj_ancestors fuel s x m)))))).
+Qed.
+Print Assumptions C16_source_objects.
 
 Definition ex16 : fm :=
   {| root := Feature (mk_info "R")
